@@ -1,11 +1,16 @@
 """Harness of the C12 check: runs the REAL engine classes of /repo against the fake MD
-programs (py/plugins/fake_*.py) or in-process, under a controlled arrival schedule.
+programs (py/plugins/fake_{lmp,cp2k,gmx}.py) or in-process (ASE, TurtleMD, the lattice plug-in),
+under a controlled arrival schedule.
 
 Everything a case needs is in a plain dict (JSON-able: it is the replay).  `run_case(case)`
 is executed in a freshly forked child (sysharness.run_many) and returns a plain dict with what
 the implementation did; `analytic(case)` computes, independently of the engine classes, the
-trajectory the fake program writes; `model_request(case, ...)` builds the request line for
-the extracted Coq model (bin/c12).
+trajectory the fake program writes; `model_inputs` / `model_request` build the request line
+for the extracted Coq model (bin/c12).
+
+Conventions.  `case["pos"]`, `case["vel"]` are the numbers in the configuration FILE of the
+phase point handed to `propagate`; `case["vel_rev_in"]` is its `vel_rev` flag (the physical
+velocity is -vel when set); `case["reverse"]` is the requested direction.
 
 Synchronisation (mode "sync"): the module-level name `sleep` of the engine module is replaced
 by `SyncSleep`; every engine sleep lets the fake program advance exactly one schedule entry
@@ -20,7 +25,6 @@ import json
 import math
 import os
 import shutil
-import struct
 import sys
 import time
 from fractions import Fraction
@@ -31,10 +35,19 @@ PLUG = os.path.join(HERE, "plugins")
 PY = "/venv/bin/python "
 FAKE = {"lammps": PY + os.path.join(PLUG, "fake_lmp.py"), "cp2k": PY + os.path.join(PLUG, "fake_cp2k.py"),
         "gromacs": PY + os.path.join(PLUG, "fake_gmx.py")}
+EXTERNAL = ("lammps", "cp2k", "gromacs")
+HANG_SLEEPS = 40        # sleeps after the program is gone before a run is declared hanging
+
+# TRR layout written by fake_gmx.py (double precision): see trr_sizes()
+TRR_HEAD0 = 1000
 
 
 class HarnessError(Exception):
     pass
+
+
+class HangDetected(BaseException):
+    """The engine keeps sleeping although the program has been gone for HANG_SLEEPS sleeps."""
 
 
 # --------------------------------------------------------------------------- hand-shake
@@ -48,6 +61,7 @@ class SyncSleep:
         self.n = 0
         self.pid = None
         self.gone = False
+        self.after_gone = 0
 
     def _read(self, name):
         try:
@@ -73,6 +87,9 @@ class SyncSleep:
     def __call__(self, dt=0.0):
         self.n += 1
         if self.gone:
+            self.after_gone += 1
+            if self.after_gone > HANG_SLEEPS:
+                raise HangDetected(f"engine still waiting {self.after_gone} sleeps after the program ended")
             return
         tmp = os.path.join(self.dir, ".go")
         with open(tmp, "w") as f:
@@ -89,14 +106,14 @@ class SyncSleep:
                 # the fake is on its way out: wait until the exit is observable
                 while self._state() not in "ZX":
                     time.sleep(0.0003)
-                    if time.time() - t0 > 60:
+                    if time.time() - t0 > 120:
                         raise HarnessError("fake program announced exit but does not die")
                 self.gone = True
                 return
             if a is not None and a.isdigit() and int(a) >= self.n:
                 return
             time.sleep(0.0003)
-            if time.time() - t0 > 60:
+            if time.time() - t0 > 120:
                 raise HarnessError(f"fake program did not acknowledge step {self.n} (state {st})")
 
 
@@ -140,7 +157,7 @@ def scale_for(values):
 
 
 def make_order(spec):
-    """spec = {"class": "Position"|"Distance"|"Velocity"|"LinOrder", ...}"""
+    """spec = {"class": "Position"|"Distance"|"Velocity"|"LinOrder"|"IntOrder", ...}"""
     from infretis.classes.orderparameter import Distance, Position, Velocity
     c = spec["class"]
     if c == "Position":
@@ -149,10 +166,14 @@ def make_order(spec):
         return Distance(tuple(spec["index"]), periodic=spec.get("periodic", True))
     if c == "Velocity":
         return Velocity(spec["index"], spec.get("dim", "x"))
-    if c == "LinOrder":
+    if PLUG not in sys.path:
         sys.path.insert(0, PLUG)
+    if c == "LinOrder":
         from c12_plugins import LinOrder
         return LinOrder(spec.get("wx", 1.0), spec.get("wv", 0.0), spec.get("wb", 0.0), spec.get("bidx", 0))
+    if c == "IntOrder":
+        from engines import IntOrder
+        return IntOrder()
     raise ValueError(c)
 
 
@@ -163,21 +184,61 @@ def order_value(orderf, pos, vel, box):
     return float(orderf.calculate(s)[0])
 
 
-# --------------------------------------------------------------------------- analytic trajectory
+# --------------------------------------------------------------------------- analytic trajectory (external engines)
 
 
-def analytic(case):
-    """Frames (pos, vel, box_numbers) the fake writes when never stopped: the free flight of
-    plugins/fakemd.py recomputed here (kept textually separate on purpose)."""
+def neg(vel):
+    return [[-x for x in v] for v in vel]
+
+
+def start_vel(case):
+    """File velocities the MD program starts from: EngineBase.propagate reverses the file
+    velocities iff reverse != vel_rev of the given point."""
+    flip = bool(case.get("reverse", False)) != bool(case.get("vel_rev_in", False))
+    return neg(case["vel"]) if flip else [list(v) for v in case["vel"]]
+
+
+def _final_amounts(case):
+    """Per output stream: number of complete frames in the file when the program has ended."""
+    full = case["maxlen"] + 1 if case.get("frames") is None else case["frames"]
+    nstream = 2 if case["engine"] == "cp2k" else 1
+    if case.get("write_rest", True):
+        return [full] * nstream
+    sched = case.get("schedule") or []
+    if not sched:
+        return [0] * nstream
+    last = list(sched[-1]) + [sched[-1][0]] * nstream
+    return [min(full, int(last[i]) // 2) for i in range(nstream)]
+
+
+def n_written(case):
+    """Number of frames the program writes completely to at least one of its output files."""
+    return max(_final_amounts(case))
+
+
+def n_complete(case):
+    """Number of frames complete in every output file at the end."""
+    return min(_final_amounts(case))
+
+
+def analytic(case, n=None, box_rate=None):
+    """Frames (pos, file vel, box numbers) the fake writes when never stopped: the uniformly
+    accelerated flight of plugins/fakemd.py recomputed here in closed form (kept textually
+    separate on purpose).  Inputs are multiples of 1/4 or 1/8, so every value is exact in
+    binary floating point."""
     sub, dt = case["subcycles"], case["timestep"]
-    n = case["maxlen"] + 1
-    rate = list(case.get("box_rate") or []) + [0.0] * len(case["box"])
+    n = case["maxlen"] + 1 if n is None else n
+    rate = list((case.get("box_rate") if box_rate is None else box_rate) or []) + [0.0] * len(case["box"])
+    acc = case.get("accel") or [0.0, 0.0, 0.0]
+    v0 = start_vel(case)
     out = []
     for k in range(n):
-        t = k * sub
-        pos = [[x + v * dt * t for x, v in zip(p, vv)] for p, vv in zip(case["pos"], case["vel"])]
-        box = [b + r * t for b, r in zip(case["box"], rate)]
-        out.append((pos, [list(v) for v in case["vel"]], box))
+        steps = k * sub
+        t = steps * dt
+        pos = [[x + v * t + 0.5 * a * t * t for x, v, a in zip(p, vv, acc)] for p, vv in zip(case["pos"], v0)]
+        vel = [[v + a * t for v, a in zip(vv, acc)] for vv in v0]
+        box = [b + r * steps for b, r in zip(case["box"], rate)]
+        out.append((pos, vel, box))
     return out
 
 
@@ -197,27 +258,23 @@ def seen_by_order(engine, pos, vel, boxnums):
     return pos, vel, list(boxnums) if boxnums is not None else None
 
 
-def order_table(case, frames, orderf):
+def order_table(engine, frames, orderf, box_of=None):
     """ord(p=k, v=+-(k+1), b=j) for every frame k, both velocity signs, every box j that can be
-    paired with it.  Returns (entries {(p,v,b): float}, box tags per frame)."""
-    eng = case["engine"]
-    # distinct boxes -> tags
+    paired with it.  Returns (entries {(p,v,b): float}, box tag per frame)."""
     tags, btag = {}, []
-    for _, _, b in frames:
-        key = tuple(b)
+    for k, (_, _, b) in enumerate(frames):
+        key = tuple(b) if b is not None else None
+        if engine == "cp2k":
+            key = tuple(frames[0][2])       # the engine uses the box of the initial configuration
         tags.setdefault(key, len(tags))
         btag.append(tags[key])
-    boxes = {v: list(k) for k, v in tags.items()}
-    if eng == "cp2k":
-        # the engine uses the box of the initial configuration throughout
-        boxes = {0: list(frames[0][2])}
-        btag = [0] * len(frames)
+    boxes = {v: (list(k) if k is not None else None) for k, v in tags.items()}
     ent = {}
     for k, (pos, vel, _) in enumerate(frames):
         for sgn in (1, -1):
             v = [[sgn * x for x in vv] for vv in vel]
             for j, bn in boxes.items():
-                p2, v2, b2 = seen_by_order(eng, pos, v, bn)
+                p2, v2, b2 = seen_by_order(engine, pos, v, bn)
                 ent[(k, sgn * (k + 1), j)] = order_value(orderf, p2, v2, b2)
     return ent, btag
 
@@ -257,7 +314,7 @@ def write_lammps_inputs(d, natoms):
             f.write(f"{i + 1}\t1\t1 0.000\t{float(i)} 0.000 0.000\n")
 
 
-def write_lammpstrj(fn, pos, vel, boxnums, ncols_atoms=8):
+def write_lammpstrj(fn, pos, vel, boxnums):
     ncol = len(boxnums) // 3
     hdr = "ITEM: BOX BOUNDS pp pp pp" if ncol == 2 else "ITEM: BOX BOUNDS xy xz yz pp pp pp"
     with open(fn, "w") as f:
@@ -269,7 +326,98 @@ def write_lammpstrj(fn, pos, vel, boxnums, ncols_atoms=8):
             f.write(f"{i + 1} 1 " + " ".join(repr(float(x)) for x in p) + " " + " ".join(repr(float(x)) for x in v) + "\n")
 
 
-# --------------------------------------------------------------------------- running a case
+CP2K_TEMPLATE = """&GLOBAL
+  PROJECT template
+  RUN_TYPE MD
+  PRINT_LEVEL LOW
+&END GLOBAL
+&MOTION
+  &MD
+    ENSEMBLE NVE
+    STEPS 10
+    TIMESTEP 0.5
+  &END MD
+  &PRINT
+    &RESTART
+      BACKUP_COPIES 0
+      &EACH
+        MD 1
+      &END EACH
+    &END RESTART
+    &VELOCITIES
+      &EACH
+        MD 1
+      &END EACH
+    &END VELOCITIES
+    &TRAJECTORY
+      &EACH
+        MD 1
+      &END EACH
+    &END TRAJECTORY
+  &END PRINT
+&END MOTION
+&FORCE_EVAL
+  METHOD FIST
+  &SUBSYS
+    &CELL
+      ABC {a} {b} {c}
+    &END CELL
+    &TOPOLOGY
+      COORD_FILE_NAME initial.xyz
+      COORD_FILE_FORMAT xyz
+    &END TOPOLOGY
+  &END SUBSYS
+&END FORCE_EVAL
+"""
+
+
+def write_xyz_conf(fn, pos, vel, box, names=None):
+    names = names or ["Ar"] * len(pos)
+    with open(fn, "w") as f:
+        f.write(f"{len(pos)}\n")
+        hdr = "# "
+        if box is not None:
+            hdr += "Box: " + " ".join(f"{x:9.4f}" for x in box)
+        f.write(hdr + "\n")
+        for nm, p, v in zip(names, pos, vel):
+            f.write(f"{nm:5s}" + "".join(f" {x:15.9f}" for x in list(p) + list(v)) + "\n")
+
+
+def write_cp2k_inputs(d, case):
+    os.makedirs(d, exist_ok=True)
+    a, b, c = case["box"][:3]
+    with open(os.path.join(d, "cp2k.inp"), "w") as f:
+        f.write(CP2K_TEMPLATE.format(a=a, b=b, c=c))
+    write_xyz_conf(os.path.join(d, "initial.xyz"), case["pos"], case["vel"], case["box"][:3])
+
+
+def g96_text(pos, vel, box):
+    out = ["TITLE\nfake\nEND\nPOSITION\n"]
+    for i, p in enumerate(pos):
+        out.append(f"{1:5d} {'AR':5s} {'AR':5s}{i + 1:7d}" + "".join(f"{x:15.9f}" for x in p) + "\n")
+    out.append("END\nVELOCITY\n")
+    for i, v in enumerate(vel):
+        out.append(f"{1:5d} {'AR':5s} {'AR':5s}{i + 1:7d}" + "".join(f"{x:15.9f}" for x in v) + "\n")
+    out.append("END\nBOX\n" + "".join(f"{x:15.9f}" for x in box) + "\nEND\n")
+    return "".join(out)
+
+
+def write_gromacs_inputs(d, case):
+    os.makedirs(d, exist_ok=True)
+    with open(os.path.join(d, "conf.g96"), "w") as f:
+        f.write(g96_text(case["pos"], case["vel"], case["box"]))
+    with open(os.path.join(d, "grompp.mdp"), "w") as f:
+        f.write("integrator = md-vv\ndt = 0.002\nnsteps = 10\ntc-grps = System\n")
+    with open(os.path.join(d, "topol.top"), "w") as f:
+        f.write("; fake topology\n")
+
+
+def trr_sizes(natoms):
+    """(header size, data size) of the frames fake_gmx.py writes (double precision, x and v)."""
+    return 4 + 8 + 12 + 13 * 4 + 16, 72 + 2 * 24 * natoms
+
+
+# --------------------------------------------------------------------------- building engines
 
 
 def _engine_module(name):
@@ -296,11 +444,22 @@ def make_engine(case, wd):
         write_lammpstrj(conf, case["pos"], case["vel"], case["box"])
         e.set_mdrun({"exe_dir": exe})
     elif eng == "cp2k":
-        from c12_harness_ext import make_cp2k
-        e, conf = make_cp2k(case, wd, inp, exe)
+        from infretis.classes.engines.cp2k import CP2KEngine
+        write_cp2k_inputs(inp, case)
+        e = CP2KEngine(FAKE["cp2k"], inp, case["timestep"], case["subcycles"], 300.0,
+                       sleep=case.get("sleep", 0.1))
+        conf = os.path.join(wd, "start.xyz")
+        write_xyz_conf(conf, case["pos"], case["vel"], case["box"][:3])
+        e.set_mdrun({"exe_dir": exe})
     elif eng == "gromacs":
-        from c12_harness_ext import make_gromacs
-        e, conf = make_gromacs(case, wd, inp, exe)
+        from infretis.classes.engines.gromacs import GromacsEngine
+        write_gromacs_inputs(inp, case)
+        os.environ["FAKEMD_CTL"] = ""       # grompp during __init__: no control file
+        e = GromacsEngine(FAKE["gromacs"], inp, case["timestep"], case["subcycles"], 300.0, exe_path=wd)
+        conf = os.path.join(wd, "start.g96")
+        with open(conf, "w") as f:
+            f.write(g96_text(case["pos"], case["vel"], case["box"]))
+        e.set_mdrun({"exe_dir": exe, "wmdrun": FAKE["gromacs"] + " mdrun"})
     else:
         raise ValueError(eng)
     e.rgen = np.random.default_rng(0)
@@ -308,19 +467,20 @@ def make_engine(case, wd):
     return e, conf
 
 
-def write_ctl(case, wd, tag, box_rate=None, schedule=None, frames=None, exit_code=None):
+def write_ctl(case, wd, tag, **over):
     d = os.path.join(wd, f"ctl_{tag}")
     os.makedirs(d, exist_ok=True)
     cfg = {
         "dir": d, "mode": case.get("mode", "sync"),
-        "schedule": case.get("schedule", []) if schedule is None else schedule,
-        "frames": case.get("frames") if frames is None else frames,
-        "exit_code": case.get("exit_code", 0) if exit_code is None else exit_code,
-        "box_rate": case.get("box_rate") if box_rate is None else box_rate,
+        "schedule": case.get("schedule", []),
+        "frames": case.get("frames"),
+        "exit_code": case.get("exit_code", 0),
+        "box_rate": case.get("box_rate"), "accel": case.get("accel"),
         "cut": case.get("cut", "line"), "shuffle_ids": case.get("shuffle_ids", False),
         "delay": case.get("delay", 0.003), "die_before_output": case.get("die_before_output", False),
-        "precision": case.get("precision", "double"), "endian": case.get("endian", ">"),
+        "write_rest": case.get("write_rest", True),
     }
+    cfg.update(over)
     p = os.path.join(d, "ctl.json")
     with open(p, "w") as f:
         json.dump(cfg, f)
@@ -328,16 +488,16 @@ def write_ctl(case, wd, tag, box_rate=None, schedule=None, frames=None, exit_cod
     return d
 
 
-def read_frame_back(engine, config, exe, tag):
-    """(pos, vel, box) of a stored frame as the engine itself reads it, and the order parameter
-    recomputed by the engine's own calculate_order from that frame only."""
-    from infretis.classes.system import System
+def read_frame_back(engine, config, tag):
+    """(file, pos, vel, box) of a stored frame as the engine itself reads it."""
     out = engine.dump_config(tuple(config), deffnm=f"chk_{tag}")
     pos, vel, box, _ = engine._read_configuration(out)
     return out, pos, vel, box
 
 
 def recompute_order(engine, conf_file, vel_rev):
+    """The order parameter of the configuration in conf_file with velocity direction vel_rev,
+    by the engine's own calculate_order (reads the file)."""
     from infretis.classes.system import System
     s = System()
     s.config = (conf_file, 0)
@@ -345,12 +505,30 @@ def recompute_order(engine, conf_file, vel_rev):
     return float(engine.calculate_order(s)[0])
 
 
-def propagate_once(engine, case, wd, conf, idx, vel_rev_in, reverse, tag, ctl_kwargs=None, order_in=None):
-    """One call of the real `propagate`; returns the observation dict and the Path."""
+def describe_path(engine, path, tag):
+    frames = []
+    for k, pp in enumerate(path.phasepoints):
+        fr = {"order": float(pp.order[0]), "file": os.path.basename(str(pp.config[0])), "idx": pp.config[1],
+              "vel_rev": bool(pp.vel_rev), "norder": len(pp.order)}
+        try:
+            out, pos, vel, box = read_frame_back(engine, pp.config, f"{tag}_{k}")
+            fr["recomputed"] = recompute_order(engine, out, pp.vel_rev)
+            fr["recomputed_flip"] = recompute_order(engine, out, not pp.vel_rev)
+            fr["pos"] = [[float(x) for x in r] for r in pos]
+            fr["vel"] = [[float(x) for x in r] for r in vel]
+            fr["box"] = None if box is None else [float(x) for x in box]
+        except BaseException as e:  # noqa: BLE001
+            fr["recompute_error"] = f"{type(e).__name__}: {e}"[:200]
+        frames.append(fr)
+    return frames
+
+
+def propagate_once(engine, case, wd, conf, idx, vel_rev_in, reverse, tag, ctl_over=None):
+    """One call of the real `propagate` of an external engine; returns the observation dict and the Path."""
     from infretis.classes.path import Path
     from infretis.classes.system import System
     mod = _engine_module(case["engine"])
-    ctl_dir = write_ctl(case, wd, tag, **(ctl_kwargs or {}))
+    ctl_dir = write_ctl(case, wd, tag, **(ctl_over or {}))
     sync = None
     old_sleep = mod.sleep
     if case.get("mode", "sync") == "sync":
@@ -361,17 +539,18 @@ def propagate_once(engine, case, wd, conf, idx, vel_rev_in, reverse, tag, ctl_kw
     system = System()
     system.config = (conf, idx)
     system.vel_rev = bool(vel_rev_in)
-    if order_in is not None:
-        system.order = [order_in]
     path = Path(maxlen=case["maxlen"])
     left, right = case["interfaces"]
     ens = {"ens_name": "001", "interfaces": [left, None, right]}
-    obs = {"raised": None, "success": None, "status": None}
+    obs = {"raised": None, "success": None, "status": None, "hang": False}
     try:
         ok, status = engine.propagate(path, ens, system, reverse=reverse)
         obs["success"], obs["status"] = bool(ok), str(status)
     except HarnessError:
         raise
+    except HangDetected as e:
+        obs["hang"] = True
+        obs["raised"] = f"HANG: {e}"
     except BaseException as e:  # noqa: BLE001
         obs["raised"] = f"{type(e).__name__}: {e}"[:300]
     finally:
@@ -391,33 +570,22 @@ def propagate_once(engine, case, wd, conf, idx, vel_rev_in, reverse, tag, ctl_kw
             os.waitpid(pid, 0)
         except OSError:
             pass
-    exe = engine.exe_dir
-    frames = []
-    for k, pp in enumerate(path.phasepoints):
-        fr = {"order": float(pp.order[0]), "file": os.path.basename(pp.config[0]), "idx": pp.config[1],
-              "vel_rev": bool(pp.vel_rev), "norder": len(pp.order)}
-        try:
-            out, pos, vel, box = read_frame_back(engine, pp.config, exe, f"{tag}_{k}")
-            fr["recomputed"] = recompute_order(engine, out, pp.vel_rev)
-            fr["pos"] = [[float(x) for x in r] for r in pos]
-            fr["vel"] = [[float(x) for x in r] for r in vel]
-            fr["box"] = None if box is None else [float(x) for x in box]
-        except BaseException as e:  # noqa: BLE001
-            fr["recompute_error"] = f"{type(e).__name__}: {e}"[:200]
-        frames.append(fr)
-    obs["frames"] = frames
-    obs["trajfiles"] = sorted({f["file"] for f in frames})
+    os.environ["FAKEMD_CTL"] = ""
+    obs["frames"] = describe_path(engine, path, tag)
+    obs["trajfiles"] = sorted({f["file"] for f in obs["frames"]})
     return obs, path
 
 
 def run_case(case):
-    """Forked-child entry: forward (or requested-direction) propagation, optionally followed by
-    a backward propagation from frame `back_from` of the path just produced."""
+    """Forked-child entry: propagation in the requested direction, optionally followed by a
+    propagation in the opposite direction from frame `back_from` of the path just produced."""
     wd = case["wd"]
     os.makedirs(wd, exist_ok=True)
-    sys.path.insert(0, HERE)
+    sys.unraisablehook = lambda *a: None      # GromacsRunner.__del__ noise at interpreter exit
+    if HERE not in sys.path:
+        sys.path.insert(0, HERE)
     try:
-        if case["engine"] in ("lammps", "cp2k", "gromacs"):
+        if case["engine"] in EXTERNAL:
             engine, conf = make_engine(case, wd)
             res = {}
             obs, path = propagate_once(engine, case, wd, conf, 0, case.get("vel_rev_in", False),
@@ -428,17 +596,16 @@ def run_case(case):
                 pp = path.phasepoints[j]
                 rate = [-r for r in (case.get("box_rate") or [])]
                 bcase = dict(case)
-                bcase["maxlen"] = case.get("back_maxlen", j + 3)
-                bcase["interfaces"] = case.get("back_interfaces", [-1e9, 1e9])
-                engine2 = engine
-                obs2, _ = propagate_once(engine2, bcase, wd, pp.config[0], pp.config[1], pp.vel_rev,
+                bcase["maxlen"] = j + 1
+                bcase["interfaces"] = [-1e9, 1e9]
+                obs2, _ = propagate_once(engine, bcase, wd, pp.config[0], pp.config[1], pp.vel_rev,
                                          not pp.vel_rev, "b",
-                                         ctl_kwargs={"box_rate": rate, "schedule": case.get("back_schedule", [[2 * (j + 4)] * 2]),
-                                                     "frames": None, "exit_code": 0})
+                                         ctl_over={"box_rate": rate, "schedule": [[2 * (j + 3)] * 2],
+                                                   "frames": None, "exit_code": 0, "die_before_output": False})
                 res["back"] = obs2
             return res
-        from c12_harness_ext import run_inproc
-        return run_inproc(case)
+        import c12_inproc
+        return c12_inproc.run_inproc(case)
     finally:
         shutil.rmtree(wd, ignore_errors=True)
 
@@ -450,49 +617,104 @@ def enc_list(xs):
     return ",".join(xs) if xs else "-"
 
 
-def model_inputs(case, orderf):
-    """(traj tokens, ord table tokens, scale exponent, frames, box tags, entries)"""
-    frames = analytic(case)
-    ent, btag = order_table(case, frames, orderf)
-    left, right = case["interfaces"]
-    k = scale_for(list(ent.values()) + [left, right])
+def quantiser(values):
+    k = scale_for(values)
     sc = 2 ** k
 
     def q(x):
         if math.isinf(x) or abs(x) >= 1e8:
-            return str(int(math.copysign(10 ** 30, x)))
+            return str(int(math.copysign(10 ** 40, x)) * sc)
         v = frac(x) * sc
-        assert v.denominator == 1
+        if v.denominator != 1:      # an implementation value outside the table's grid: cannot match the model
+            return f"{v.numerator}/{v.denominator}"
         return str(v.numerator)
+    return q
 
+
+def model_inputs(case, orderf):
+    """Everything the model needs for an EXTERNAL engine case."""
+    frames = analytic(case, n_written(case))
+    ent, btag = order_table(case["engine"], frames, orderf)
+    left, right = case["interfaces"]
+    q = quantiser(list(ent.values()) + [left, right])
     rv = bool(case.get("reverse", False))
     traj = [f"{i}:{i + 1}:{btag[i]}" for i in range(len(frames))]
     ordt = [f"{p}:{v}:{b}:{q(o)}" for (p, v, b), o in ent.items()]
-    return {"traj": traj, "ord": ordt, "scale": sc, "q": q, "frames": frames, "btag": btag,
-            "left": q(left), "right": q(right), "rv": int(rv), "entries": ent}
+    own = [ent[(k, (-(k + 1) if rv else (k + 1)), btag[k])] for k in range(len(frames))]
+    return {"traj": traj, "ord": ordt, "q": q, "frames": frames, "btag": btag,
+            "left": q(left), "right": q(right), "rv": int(rv), "entries": ent, "own": own}
 
 
 def visible_reads(case):
     """Arrival schedule as the extracted model wants it (sync mode only)."""
     eng = case["engine"]
     sched = case.get("schedule", [])
-    total = case.get("frames")
-    n = case["maxlen"] + 1 if total is None else total
+    n = n_written(case)
+    fin = _final_amounts(case)
     if eng == "lammps":
-        reads = [f"{min(int(e[0]) // 2, n)}:1" for e in sched] + [f"{n}:0"]
-        return reads
+        return [f"{min(int(e[0]) // 2, n)}:1" for e in sched] + [f"{fin[0]}:0"]
     if eng == "cp2k":
-        return [f"{min(int(e[0]) // 2, n)}:{min(int(e[1]) // 2, n)}:1" for e in sched] + [f"{n}:{n}:0"]
+        return [f"{min(int(e[0]) // 2, n)}:{min(int(e[1]) // 2, n)}:1" for e in sched] + [f"{fin[0]}:{fin[1]}:0"]
     raise ValueError(eng)
+
+
+def gmx_epochs(case):
+    """(hsz, dsz, head0, final size, [size per epoch]) for the GROMACS model: the TRR file
+    becomes visible in units of half frames (2k = k frames, 2k+1 = k frames + the header and
+    half of the data block of the next)."""
+    n = n_written(case)
+    hsz, dsz = trr_sizes(len(case["pos"]))
+    fsz = hsz + dsz
+
+    full = case["maxlen"] + 1 if case.get("frames") is None else case["frames"]
+
+    def size(half):
+        k, odd = divmod(int(half), 2)
+        k = min(k, full)
+        s = k * fsz
+        if odd and k < full:
+            s += hsz + dsz // 2
+        return s
+    eps = [size(e[0]) for e in case.get("schedule", [])]
+    fin = n * fsz if case.get("write_rest", True) else (eps[-1] if eps else 0)
+    return hsz, dsz, TRR_HEAD0, fin, eps
+
+
+def dead_at_start(case):
+    return bool(case.get("die_before_output", False)) or not case.get("schedule")
+
+
+def model_request(case, mi, fx=1, fix2=1, fix3=1, fix14=1):
+    eng = case["engine"]
+    head = f"{mi['rv']} {mi['left']} {mi['right']} {case['maxlen']}"
+    traj, ordt = enc_list(mi["traj"]), enc_list(mi["ord"])
+    code = case.get("exit_code", 0)
+    dead = int(dead_at_start(case))
+    if eng == "lammps":
+        return f"lammps {fx} {fix2} {head} {code} {dead} {traj} {ordt} {enc_list(visible_reads(case))}"
+    if eng == "cp2k":
+        return f"cp2k {fx} {head} {code} {dead} 0 {traj} {ordt} {enc_list(visible_reads(case))}"
+    if eng == "gromacs":
+        hsz, dsz, head0, fin, eps = gmx_epochs(case)
+        return (f"gromacs {fx} {fix3} {fix14} {head} {code} {dead} {hsz} {dsz} {head0} {fin} {traj} {ordt} "
+                f"{enc_list([str(x) for x in eps])}")
+    raise ValueError(eng)
+
+
+def spec_request(case, mi, fx=1):
+    head = f"{mi['rv']} {mi['left']} {mi['right']} {case['maxlen']}"
+    return f"spec {fx} {head} {enc_list(mi['traj'])} {enc_list(mi['ord'])}"
 
 
 def canon_impl(obs, q):
     """Implementation outcome in the model's answer format."""
     fr = obs["frames"]
     path = enc_list([f"{q(f['order'])}:{f['idx']}:{int(f['vel_rev'])}" for f in fr])
+    if obs.get("hang"):
+        return f"HANG 0 {path}"
     if obs["raised"] is not None:
         kind = "IDXERR" if obs["raised"].startswith("IndexError") else "RAISE"
-        return f"{kind} 0 {path}"
+        return f"{kind} 0 {path}" if kind == "RAISE" else "IDXERR 0 -"
     if obs["status"].startswith("propagating with"):
         return f"TRUNC 0 {path}"
     return f"RET {int(obs['success'])} {path}"
@@ -503,4 +725,6 @@ def canon_model(ans):
     t = ans.split()
     if t[0] == "IDXERR":
         return "IDXERR 0 -", "-"
+    if t[0] == "ERR":
+        return ans, "-"
     return f"{t[0]} {t[1]} {t[3]}", t[2]
